@@ -129,6 +129,212 @@ func c12CallArgs(fd *ast.FuncDecl, sel string) []ast.Expr {
 	return out
 }
 
+
+// ---- round 4: statement skeletons, receiver access tables, lowerByte as a Lean function
+
+// c12Skeleton prints a function body statement by statement in source order: assignments and
+// inc/dec ("lhs op rhs"), branch and loop heads, case clauses, returns, break/continue, expression
+// statements.  Nested blocks are entered; the text of every expression is kept, so the list pins the
+// control flow AND the index arithmetic.
+func c12Skeleton(c *Ctx, fd *ast.FuncDecl) ([]string, bool) {
+	if fd == nil || fd.Body == nil {
+		return nil, false
+	}
+	var out []string
+	var walk func(st ast.Stmt)
+	block := func(b *ast.BlockStmt) {
+		if b != nil {
+			for _, st := range b.List {
+				walk(st)
+			}
+		}
+	}
+	walk = func(st ast.Stmt) {
+		switch x := st.(type) {
+		case *ast.AssignStmt, *ast.IncDecStmt, *ast.ReturnStmt, *ast.BranchStmt, *ast.ExprStmt, *ast.DeclStmt:
+			out = append(out, strings.Join(strings.Fields(c.Print(x)), " "))
+		case *ast.IfStmt:
+			h := "if "
+			if x.Init != nil {
+				h += c.Print(x.Init) + "; "
+			}
+			out = append(out, h+c.Print(x.Cond))
+			block(x.Body)
+			if x.Else != nil {
+				out = append(out, "else")
+				walk(x.Else)
+			}
+			out = append(out, "end")
+		case *ast.BlockStmt:
+			block(x)
+		case *ast.ForStmt:
+			h := "for "
+			if x.Init != nil {
+				h += c.Print(x.Init)
+			}
+			h += "; "
+			if x.Cond != nil {
+				h += c.Print(x.Cond)
+			}
+			h += "; "
+			if x.Post != nil {
+				h += c.Print(x.Post)
+			}
+			out = append(out, h)
+			block(x.Body)
+			out = append(out, "end")
+		case *ast.RangeStmt:
+			h := "range"
+			if x.Key != nil {
+				h += " " + c.Print(x.Key)
+			}
+			if x.Value != nil {
+				h += ", " + c.Print(x.Value)
+			}
+			out = append(out, h+" := "+c.Print(x.X))
+			block(x.Body)
+			out = append(out, "end")
+		case *ast.SwitchStmt:
+			h := "switch"
+			if x.Tag != nil {
+				h += " " + c.Print(x.Tag)
+			}
+			out = append(out, h)
+			for _, cc := range x.Body.List {
+				cl := cc.(*ast.CaseClause)
+				if cl.List == nil {
+					out = append(out, "default")
+				} else {
+					es := make([]string, len(cl.List))
+					for i, e := range cl.List {
+						es[i] = c.Print(e)
+					}
+					out = append(out, "case "+strings.Join(es, ", "))
+				}
+				for _, b := range cl.Body {
+					walk(b)
+				}
+			}
+			out = append(out, "end")
+		default:
+			out = append(out, "?"+strings.Join(strings.Fields(c.Print(st)), " "))
+		}
+	}
+	block(fd.Body)
+	return out, true
+}
+
+// c12RootIdent: the identifier an lvalue / selector chain starts with (ret[idx+1] -> ret, s.pool -> s).
+func c12RootIdent(e ast.Expr) string {
+	for {
+		switch x := e.(type) {
+		case *ast.Ident:
+			return x.Name
+		case *ast.SelectorExpr:
+			e = x.X
+		case *ast.IndexExpr:
+			e = x.X
+		case *ast.SliceExpr:
+			e = x.X
+		case *ast.ParenExpr:
+			e = x.X
+		case *ast.StarExpr:
+			e = x.X
+		default:
+			return ""
+		}
+	}
+}
+
+// c12Access: what a method does THROUGH ITS RECEIVER: the lvalues it assigns (writes) and the
+// methods / function-valued fields it calls, in source order.
+func c12Access(c *Ctx, fd *ast.FuncDecl) (writes, calls []string, ok bool) {
+	if fd == nil || fd.Recv == nil || len(fd.Recv.List) == 0 || len(fd.Recv.List[0].Names) == 0 {
+		return nil, nil, false
+	}
+	recv := fd.Recv.List[0].Names[0].Name
+	ast.Inspect(fd.Body, func(n ast.Node) bool {
+		switch x := n.(type) {
+		case *ast.AssignStmt:
+			for _, l := range x.Lhs {
+				if _, plain := l.(*ast.Ident); !plain && c12RootIdent(l) == recv {
+					writes = append(writes, c.Print(l))
+				}
+			}
+		case *ast.IncDecStmt:
+			if _, plain := x.X.(*ast.Ident); !plain && c12RootIdent(x.X) == recv {
+				writes = append(writes, c.Print(x.X))
+			}
+		case *ast.CallExpr:
+			if c12RootIdent(x.Fun) == recv {
+				calls = append(calls, c.Print(x.Fun))
+			}
+		}
+		return true
+	})
+	return writes, calls, true
+}
+
+// c12ByteExpr translates a byte-valued / boolean Go expression over one parameter, char and int
+// literals, + - and comparisons joined by && || to Lean (UInt8 arithmetic, Prop connectives).
+func c12ByteExpr(e ast.Expr, param string) (string, bool) {
+	switch x := e.(type) {
+	case *ast.ParenExpr:
+		s, ok := c12ByteExpr(x.X, param)
+		return "(" + s + ")", ok
+	case *ast.Ident:
+		if x.Name == param {
+			return "c", true
+		}
+	case *ast.BasicLit:
+		if v, ok := IntLit(x); ok && v >= 0 && v < 256 {
+			return fmt.Sprint(v), true
+		}
+	case *ast.BinaryExpr:
+		ops := map[token.Token]string{token.ADD: "+", token.SUB: "-", token.LEQ: "≤", token.LSS: "<", token.GEQ: "≥",
+			token.GTR: ">", token.LAND: "∧", token.LOR: "∨", token.EQL: "=", token.NEQ: "≠"}
+		if op, ok := ops[x.Op]; ok {
+			a, ok1 := c12ByteExpr(x.X, param)
+			b, ok2 := c12ByteExpr(x.Y, param)
+			return "(" + a + " " + op + " " + b + ")", ok1 && ok2
+		}
+	}
+	return "", false
+}
+
+// c12LowerByte: `func lowerByte(c byte) byte { if COND { return A }; return B }` as a Lean function.
+func c12LowerByte(fd *ast.FuncDecl) (string, bool) {
+	if fd == nil || fd.Body == nil || len(fd.Body.List) != 2 || fd.Type.Params == nil || len(fd.Type.Params.List) != 1 ||
+		len(fd.Type.Params.List[0].Names) != 1 {
+		return "", false
+	}
+	param := fd.Type.Params.List[0].Names[0].Name
+	ifs, ok1 := fd.Body.List[0].(*ast.IfStmt)
+	ret, ok2 := fd.Body.List[1].(*ast.ReturnStmt)
+	if !ok1 || !ok2 || ifs.Init != nil || ifs.Else != nil || len(ifs.Body.List) != 1 || len(ret.Results) != 1 {
+		return "", false
+	}
+	r1, ok3 := ifs.Body.List[0].(*ast.ReturnStmt)
+	if !ok3 || len(r1.Results) != 1 {
+		return "", false
+	}
+	cond, okc := c12ByteExpr(ifs.Cond, param)
+	a, oka := c12ByteExpr(r1.Results[0], param)
+	b, okb := c12ByteExpr(ret.Results[0], param)
+	if !(okc && oka && okb) {
+		return "", false
+	}
+	return fmt.Sprintf("def lowerByte (c : UInt8) : UInt8 := if %s then %s else %s\n\n", cond, a, b), true
+}
+
+func c12EmitList(sb *strings.Builder, name string, l []string, ok bool) {
+	if !ok {
+		sb.WriteString(untranslatable(name) + "\n")
+		return
+	}
+	fmt.Fprintf(sb, "def %s : List String := %s\n\n", name, leanStrList(l))
+}
+
 func init() {
 	RegisterGen("C12", func(c *Ctx) string {
 		const file = "pkg/matchers/dissect/dissect.go"
@@ -175,6 +381,30 @@ func init() {
 			sb.WriteString(untranslatable("compileNeedles") + "\n")
 		}
 		c12Shape(c, c.Func(file, "CompileEx"), &sb)
+
+		// round 4: the match loop, the case-insensitive search and the pool, statement by statement
+		c.Fingerprint("pkg/matchers/dissect/case.go", "lowerASCII")
+		const caseFile, poolFile = "pkg/matchers/dissect/case.go", "pkg/slicepool/intpool.go"
+		sk, ok := c12Skeleton(c, c.Func(file, "DissectInstance.FindSubmatchIndex"))
+		c12EmitList(&sb, "findSkeleton", sk, ok)
+		sk, ok = c12Skeleton(c, c.Func(caseFile, "indexIgnoreCase"))
+		c12EmitList(&sb, "icSkeleton", sk, ok)
+		sk, ok = c12Skeleton(c, c.Func(caseFile, "lowerASCII"))
+		c12EmitList(&sb, "lowerASCIISkeleton", sk, ok)
+		sk, ok = c12Skeleton(c, c.Func(poolFile, "IntPool.Get"))
+		c12EmitList(&sb, "poolGetSkeleton", sk, ok)
+		sk, ok = c12Skeleton(c, c.Func(file, "Dissect.CreateInstance"))
+		c12EmitList(&sb, "createInstanceSkeleton", sk, ok)
+		w, calls, ok := c12Access(c, c.Func(file, "DissectInstance.FindSubmatchIndex"))
+		c12EmitList(&sb, "findReceiverWrites", w, ok)
+		c12EmitList(&sb, "findReceiverCalls", calls, ok)
+		w, _, ok = c12Access(c, c.Func(poolFile, "IntPool.Get"))
+		c12EmitList(&sb, "poolGetReceiverWrites", w, ok)
+		if lb, ok := c12LowerByte(c.Func(caseFile, "lowerByte")); ok {
+			sb.WriteString(lb)
+		} else {
+			sb.WriteString(untranslatable("lowerByte") + "\n")
+		}
 		sb.WriteString("end Rare.Gen.C12\n")
 		return sb.String()
 	})
